@@ -17,7 +17,7 @@ from . import common, coqterm
 from .c04 import fresh_schema_name
 from .coqterm import coq_list, coq_string, coq_Z
 
-C13_FILES = ["Properties/C13.v", "Proofs/DirectiveProofs.v", "Proofs/DirectiveOutProofs.v"]
+C13_FILES = ["Properties/C13.v", "Proofs/DirectiveProofs.v", "Proofs/DirectiveOutProofs.v", "Proofs/DirectiveAbstract.v"]
 HOOKS = ["on_post_input_coercion", "on_argument_execution", "on_field_execution", "on_pre_output_coercion"]
 LOCS = ("SCALAR | OBJECT | INPUT_OBJECT | INPUT_FIELD_DEFINITION | ARGUMENT_DEFINITION | FIELD_DEFINITION | FIELD | ENUM | "
         "ENUM_VALUE | INTERFACE | UNION")
